@@ -62,6 +62,11 @@ def unit_merge(ctx, mname, which="clauses"):
         return as_symmap(scope.vars[sr_name(scope)], vsort=R)
 
     def havoc(e, scope, it):
+        # ownership: the per-call tables are objects created by this call, not attributes of the matcher (shared by every call and thread)
+        me = scope.vars.get("self")
+        table = scope.vars.get(sr_name(scope))
+        if isinstance(me, SObj) and any(v is table or v is local_labelmap(scope) for v in me.attrs.values()):
+            e.oblige("ownership(the score table / label map of a call is not an attribute of the matcher object)", z3.BoolVal(False), structural=True)
         local_labelmap(scope).attrs["labelmap"] = fresh_symmap(e, "lm")
         scope.vars[sr_name(scope)] = SymMap(e.fresh("sr_dom", SETS), e.fresh("sr_val", z3.ArraySort(I, R)), name="score_ref")
 
@@ -92,10 +97,23 @@ def unit_merge(ctx, mname, which="clauses"):
         M = metric(e, mname)
         self_ = e.call(e.resolve(IM + "MaximizeMergeMatching"), [], dict(matching_metric=M, matching_threshold=SymReal(thr)))
         pair = e.new_obj(PP + "UnmatchedInstancePair", _ref_labels="REF_LABELS", _prediction_arr="PRED", _reference_arr="REF")
-        return [self_, pair], {}
+        import copy as _copy
+        snap = {k: (_copy.copy(v) if isinstance(v, (dict, list, set)) else v) for k, v in self_.attrs.items()}
+        return [self_, pair], {}, {"matcher": self_, "ev0": len(e.events), "snap": snap}
 
     paths = eng.run(QN, mk)
     fn = "instance_matcher.MaximizeMergeMatching._match_instances"
+    if which == "clauses":
+        ctx.side_obligations(paths, f"{fn}[{mname}]", func=QN, replay="c14.reuse", skip=lambda s_: not s_.startswith("ownership"), info={"structural": True})
+        wr = [ev for p_ in paths for ev in p_.events[p_.state["ev0"]:] if ev[0] == "setattr" and ev[1] == p_.state["matcher"].oid]
+        def _same(a_, b_):
+            if isinstance(a_, (dict, list, set)):
+                return type(a_) is type(b_) and len(a_) == len(b_) and (list(a_) == list(b_) if not isinstance(a_, dict) else list(a_.keys()) == list(b_.keys()))
+            return a_ is b_ or (not isinstance(a_, (Sym, SObj)) and a_ == b_)
+        mutated = sorted({k for p_ in paths for k, v in p_.state["snap"].items() if not _same(v, p_.state["matcher"].attrs.get(k))} |
+                         {k for p_ in paths for k in p_.state["matcher"].attrs if k not in p_.state["snap"]})
+        ctx.oblige(f"{fn}[{mname}]/frame(the matcher object is not written: nothing is kept between calls or shared between threads using one evaluator)", [],
+                   z3.BoolVal(not wr and not mutated), func=QN, replay="c14.reuse", info={"structural": True, "writes": str(sorted({e_[3] for e_ in wr})[:4]), "mutated_attributes": str(mutated[:4])})
     tag = mname if which == "clauses" else f"{mname}.bookkeeping"
     info = {"metric": mname, "prefer": ["(<= n 4)"]}
     ctx.side_obligations(paths, f"{fn}[{tag}]", func=QN, replay="c14.merge", info=info)
@@ -250,6 +268,8 @@ def build(ctx):
 
 
 def concretise(ctx, o, r):
+    if o.replay == "c14.reuse":
+        return {}
     if (o.info or {}).get("stage"):
         return stage_concretise(ctx, o, r)
     if o.replay != "c14.merge":
